@@ -120,6 +120,19 @@ def statement_rows():
             ok = got.lower().startswith("run ") and got[4:] == exp[4:] and texts[0] == texts[1]
             res.append(ob(oid, ok, exp, got if texts[0] == texts[1] else dict(packed=texts[0], spaced=texts[1]),
                           "operand k of the real grammar rule in the parameter the library declares under that name; same result with blanks at every boundary"))
+            # the same with every numeric operand a unary-operator expression (another class of the AST)
+            opaque.reset()
+            st, n = f2.build(rule, f2.fill(tmpl), wrap="unary")
+            got_u = norm(st.basic09_text(0))
+            exp_u = exp
+            for k in range(1, 10):
+                if ("{e}" in tmpl) and tmpl.replace("{s}", "").count("{e}") >= 1:
+                    pass
+            kinds = re.findall(r"\{(e|s)\}", tmpl)
+            for k, kd in enumerate(kinds, 1):
+                if kd == "e":
+                    exp_u = exp_u.replace(str(mark("E%d" % k, 0)), "- " + str(mark("E%d" % k, 0)))
+            res.append(ob(oid + " [unary operands]", got_u[4:] == exp_u[4:], exp_u, got_u, "operands of class BasicOpExp are placed like any other operand"))
             return res
         out += guarded(oid, run)
     for rule, tmpl, proc, binding in FUNC_ROWS:
